@@ -240,6 +240,27 @@ func c16RealProcess(c *Ctx) {
 	}
 	steps := [][]int{{0, 1}, {1}, {}, {0}}
 	for si, keep := range steps {
+		// a request that is still being answered by the origin when its server is removed from the configuration
+		var slow chan string
+		if si == 1 || si == 2 {
+			gone := addrs[0]
+			if si == 2 {
+				gone = addrs[1]
+			}
+			slow = make(chan string, 1)
+			go func() {
+				cl := &http.Client{Timeout: 25 * time.Second, Transport: &http.Transport{DisableKeepAlives: true}}
+				resp, err := cl.Get("http://" + gone + "/slow")
+				if err != nil {
+					slow <- "failed: " + err.Error()
+					return
+				}
+				b, _ := io.ReadAll(resp.Body)
+				resp.Body.Close()
+				slow <- fmt.Sprintf("%d %s", resp.StatusCode, b)
+			}()
+			time.Sleep(300 * time.Millisecond) // the request is inside the origin now
+		}
 		if si > 0 {
 			if err := save(mk(keep...)); err != nil {
 				c.Violation("real-process-config-file", "harness-config-write", err.Error(), nil, nil, nil)
@@ -261,6 +282,16 @@ func c16RealProcess(c *Ctx) {
 				if !want[i] && accepts(a) {
 					ok, desc = false, fmt.Sprintf("server %s, removed from the configuration, still accepts connections", a)
 				}
+			}
+		}
+		if slow != nil {
+			select {
+			case res := <-slow:
+				if !strings.HasPrefix(res, "200 origin-") {
+					c.Violation("real-process-config-file", "in-flight-request-lost-by-server-removal", fmt.Sprintf("save %d removed a server while a request on it was being answered by the origin (2 s): the client got %q", si, res), nil, map[string]interface{}{"save": si}, nil)
+				}
+			case <-time.After(26 * time.Second):
+				c.Violation("real-process-config-file", "request-blocks-forever", fmt.Sprintf("save %d removed a server while a request on it was in flight: the request never completed", si), nil, map[string]interface{}{"save": si}, nil)
 			}
 		}
 		if !ok {
